@@ -32,11 +32,14 @@ pub struct Field {
     /// maximum); position in the buffer of the previous / next element, of the same width; -1 = none
     pub prevo: i64,
     pub nexto: i64,
+    /// derived classes (FaultModel!DerClasses): the value the OTHER fields of the font imply for this size /
+    /// length / count field (computed without reading the field itself); -1 = the walk knows none
+    pub dv: i64,
 }
 
 impl Field {
     pub fn json(&self) -> Value {
-        json!([self.off, self.w, self.role, self.level, self.tbl, self.name, self.tstart, self.tlen, self.selfv, self.parentv, self.prevo, self.nexto])
+        json!([self.off, self.w, self.role, self.level, self.tbl, self.name, self.tstart, self.tlen, self.selfv, self.parentv, self.prevo, self.nexto, self.dv])
     }
     pub fn from_json(v: &Value) -> Field {
         let role = v[2].as_str().unwrap();
@@ -54,6 +57,7 @@ impl Field {
             parentv: v.get(9).and_then(|x| x.as_i64()).unwrap_or(-1),
             prevo: v.get(10).and_then(|x| x.as_i64()).unwrap_or(-1),
             nexto: v.get(11).and_then(|x| x.as_i64()).unwrap_or(-1),
+            dv: v.get(12).and_then(|x| x.as_i64()).unwrap_or(-1),
         }
     }
 }
@@ -206,7 +210,7 @@ impl<'a> Walk<'a> {
     fn f(&mut self, rel: usize, w: u8, role: &'static str, name: &str) {
         if rel + w as usize <= self.tlen {
             if !self.mute {
-                self.out.push(Field { off: self.tstart + rel, w, role, level: self.level, tbl: self.tbl.clone(), name: name.to_string(), tstart: self.tstart, tlen: self.tlen, selfv: -1, parentv: -1, prevo: -1, nexto: -1 });
+                self.out.push(Field { off: self.tstart + rel, w, role, level: self.level, tbl: self.tbl.clone(), name: name.to_string(), tstart: self.tstart, tlen: self.tlen, selfv: -1, parentv: -1, prevo: -1, nexto: -1, dv: -1 });
             }
         }
     }
@@ -228,6 +232,17 @@ impl<'a> Walk<'a> {
             let max = if l.w >= 8 { i64::MAX } else { (1i64 << (8 * l.w as u32)) - 1 };
             l.selfv = if sv > max { -1 } else { sv };
             l.parentv = if pv > max { -1 } else { pv };
+        }
+    }
+    /// implied value of a size / length / count field pushed earlier (position relative to the current table):
+    /// what the other fields of the font say the field should hold (see `Field::dv`)
+    fn der(&mut self, rel: usize, dv: usize) {
+        let abs = self.tstart + rel;
+        if let Some(l) = self.out.iter_mut().rev().find(|f| f.off == abs) {
+            let max = if l.w >= 8 { i64::MAX } else { (1i64 << (8 * l.w as u32)) - 1 };
+            if (l.role == "count" || l.role == "length" || l.role == "offset") && dv as i64 <= max && dv < (1 << 31) {
+                l.dv = dv as i64;
+            }
         }
     }
     fn fs(&mut self, rel: usize, specs: &[(u8, &'static str, &str)]) -> usize {
@@ -317,8 +332,23 @@ impl<'a> Walk<'a> {
             self.recs.push(RecInfo { tag: tag.clone(), rec_off: r, rec_size: 16, off_field: r + 8, len_field: r + 12, count_field: at + 4, index: i, dir_start: at + 12, data_off: off, data_len: len });
             tables.push((tag, off, len));
         }
-        // the records are an array sorted by tag: tag, checksum, offset, length each with the same member of its neighbours
+        // implied values: a table runs up to where the next one begins (the last: to the end of the file); the
+        // directory of a bare font runs up to the first table
+        let mut starts: Vec<usize> = tables.iter().map(|t| t.1).collect();
+        starts.push(flen);
+        starts.sort();
+        for (i, (_, off, _)) in tables.iter().enumerate() {
+            if let Some(next) = starts.iter().copied().find(|s| s > off) {
+                self.der(at + 12 + 16 * i + 12, next - off);
+            }
+        }
         self.enter("sfnt", 0, flen, "dir");
+        if at == 0 {
+            if let Some(first) = starts.first().filter(|f| **f >= 12) {
+                self.der(4, (first - 12) / 16);
+            }
+        }
+        // the records are an array sorted by tag: tag, checksum, offset, length each with the same member of its neighbours
         for m in [0usize, 4, 8, 12] {
             self.sibs_from(mark, at + 12, 16, n, m, 4);
         }
@@ -352,6 +382,10 @@ impl<'a> Walk<'a> {
         self.enter("wOFF", 0, flen, "dir");
         self.fs(0, &[(4, "version", "signature"), (4, "version", "flavor"), (4, "length", "length"), (2, "count", "numTables"), (2, "value", "reserved"), (4, "length", "totalSfntSize"), (2, "version", "majorVersion"), (2, "version", "minorVersion"), (4, "offset", "metaOffset"), (4, "length", "metaLength"), (4, "length", "metaOrigLength"), (4, "offset", "privOffset"), (4, "length", "privLength")]);
         let n = self.u16(12).unwrap_or(0);
+        // implied values: the file's own length; the size of the font the records describe
+        self.der(8, flen);
+        let total: usize = 12 + 16 * n + (0..n).filter_map(|i| self.u32(44 + 20 * i + 12)).map(|l| (l + 3) & !3).sum::<usize>();
+        self.der(16, total);
         let mut plain = Vec::new();
         let mark = self.out.len();
         for i in 0..n {
@@ -397,6 +431,7 @@ impl<'a> Walk<'a> {
         self.fs(0, &[(4, "version", "signature"), (4, "version", "flavor"), (4, "length", "length"), (2, "count", "numTables"), (2, "value", "reserved"), (4, "length", "totalSfntSize"), (4, "length", "totalCompressedSize"), (2, "version", "majorVersion"), (2, "version", "minorVersion"), (4, "offset", "metaOffset"), (4, "length", "metaLength"), (4, "length", "metaOrigLength"), (4, "offset", "privOffset"), (4, "length", "privLength")]);
         let n = self.u16(12).unwrap_or(0);
         let comp = self.u32(20).unwrap_or(0);
+        self.der(8, flen);
         let mut p = 48usize;
         for _ in 0..n {
             let flags = match self.u8(p) {
@@ -524,8 +559,25 @@ impl<'a> Walk<'a> {
             self.enter(tag, o, l, "table");
             match tag.as_str() {
                 "head" => self.head(),
-                "hhea" | "vhea" => self.hhea(),
-                "maxp" => self.maxp(),
+                "hhea" | "vhea" => {
+                    self.hhea();
+                    // numberOfHMetrics: what the metrics table holds for the glyph count (4 bytes per long metric, 2 per bearing)
+                    if let Some((_, ml)) = get(if tag == "hhea" { "hmtx" } else { "vmtx" }) {
+                        if ml >= 2 * num_glyphs {
+                            self.der(34, (ml - 2 * num_glyphs) / 2);
+                        }
+                    }
+                }
+                "maxp" => {
+                    self.maxp();
+                    // numGlyphs: what the loca table holds
+                    if let Some((_, ll)) = get("loca") {
+                        let w = if loca_long { 4 } else { 2 };
+                        if ll >= w {
+                            self.der(4, ll / w - 1);
+                        }
+                    }
+                }
                 "hmtx" => self.hmtx(num_h, num_glyphs),
                 "vmtx" => self.hmtx(num_v, num_glyphs),
                 "loca" => self.loca(loca_long, num_glyphs),
@@ -552,14 +604,18 @@ impl<'a> Walk<'a> {
                 "CFF " => self.cff(false),
                 "CFF2" => self.cff(true),
                 "SVG " => self.svg(),
-                "CBLC" | "EBLC" => self.cblc(),
+                "CBLC" | "EBLC" => {
+                    let dat = get(if tag == "CBLC" { "CBDT" } else { "EBDT" });
+                    self.cblc(dat)
+                }
                 "CBDT" | "EBDT" => {
-                    self.fs(0, &[(2, "version", "majorVersion"), (2, "version", "minorVersion"), (1, "value", "glyph0.height"), (1, "value", "glyph0.width"), (1, "value", "glyph0.bearingX"), (1, "value", "glyph0.bearingY"), (1, "value", "glyph0.advance"), (4, "length", "glyph0.dataLen")]);
+                    self.fs(0, &[(2, "version", "majorVersion"), (2, "version", "minorVersion")]);
+                    if let Some(loc) = get(if tag == "CBDT" { "CBLC" } else { "EBLC" }) {
+                        self.cbdt(loc)
+                    }
                 }
                 "sbix" => self.sbix(num_glyphs),
-                "morx" => {
-                    self.fs(0, &[(2, "version", "version"), (2, "value", "unused"), (4, "count", "nChains"), (4, "value", "chain0.defaultFlags"), (4, "length", "chain0.chainLength"), (4, "count", "chain0.nFeatureEntries"), (4, "count", "chain0.nSubtables")]);
-                }
+                "morx" => self.morx(num_glyphs),
                 "VORG" => {
                     self.fs(0, &[(2, "version", "majorVersion"), (2, "version", "minorVersion"), (2, "value", "defaultVertOriginY"), (2, "count", "numVertOriginYMetrics"), (2, "index", "rec0.glyphIndex"), (2, "value", "rec0.vertOriginY")]);
                     let n = self.u16(6).unwrap_or(0);
@@ -749,6 +805,7 @@ impl<'a> Walk<'a> {
                 0 => {
                     self.fs(o + 2, &[(2, "length", "f0.length"), (2, "value", "f0.language"), (1, "index", "f0.glyphId[0]"), (1, "index", "f0.glyphId[1]")]);
                     self.f(o + 6 + 65, 1, "index", "f0.glyphId[65]");
+                    self.der(o + 2, 262);
                     self.sibs(o + 6, 1, 256, 0, 1);
                 }
                 2 => {
@@ -761,6 +818,10 @@ impl<'a> Walk<'a> {
                 4 => {
                     self.fs(o + 2, &[(2, "length", "f4.length"), (2, "value", "f4.language"), (2, "count", "f4.segCountX2"), (2, "value", "f4.searchRange"), (2, "value", "f4.entrySelector"), (2, "value", "f4.rangeShift")]);
                     let sc = self.u16(o + 6).unwrap_or(0) / 2;
+                    // segCountX2: the four parallel arrays fill the sub-table when there is no glyphIdArray; at most that
+                    if let Some(l) = self.u16(o + 2).filter(|l| *l >= 16) {
+                        self.der(o + 6, (l - 16) / 8 * 2);
+                    }
                     if sc > 0 {
                         let (e, s, dl, ro) = (o + 14, o + 16 + 2 * sc, o + 16 + 4 * sc, o + 16 + 6 * sc);
                         for (k, kn) in [(0usize, "0"), (1, "1"), (sc / 2, "mid"), (sc.saturating_sub(2), "last-1"), (sc - 1, "last")] {
@@ -792,6 +853,11 @@ impl<'a> Walk<'a> {
                     if c > 1 {
                         self.f(o + 12, 2, "index", "f6.glyphId[1]");
                     }
+                    // length and entryCount imply each other
+                    self.der(o + 2, 10 + 2 * c);
+                    if let Some(l) = self.u16(o + 2).filter(|l| *l >= 10) {
+                        self.der(o + 8, (l - 10) / 2);
+                    }
                     self.sibs(o + 10, 2, c, 0, 2);
                 }
                 8 => {
@@ -809,11 +875,19 @@ impl<'a> Walk<'a> {
                     if c > 1 {
                         self.f(o + 22, 2, "index", "f10.glyph[1]");
                     }
+                    self.der(o + 4, 20 + 2 * c);
+                    if let Some(l) = self.u32(o + 4).filter(|l| *l >= 20) {
+                        self.der(o + 16, (l - 20) / 2);
+                    }
                     self.sibs(o + 20, 2, c, 0, 2);
                 }
                 12 | 13 => {
                     self.fs(o + 2, &[(2, "value", "f12.reserved"), (4, "length", "f12.length"), (4, "value", "f12.language"), (4, "count", "f12.numGroups")]);
                     let ng = self.u32(o + 12).unwrap_or(0);
+                    self.der(o + 4, 16 + 12 * ng);
+                    if let Some(l) = self.u32(o + 4).filter(|l| *l >= 16) {
+                        self.der(o + 12, (l - 16) / 12);
+                    }
                     for (k, kn) in [(0usize, "0"), (1, "1"), (ng / 2, "mid"), (ng.saturating_sub(1), "last")] {
                         if k < ng {
                             self.fs(o + 16 + 12 * k, &[(4, "value", &format!("f12.group[{}].start", kn)), (4, "value", &format!("f12.group[{}].end", kn)), (4, "index", &format!("f12.group[{}].glyph", kn))]);
@@ -856,6 +930,13 @@ impl<'a> Walk<'a> {
     fn name(&mut self) {
         self.fs(0, &[(2, "version", "format"), (2, "count", "count"), (2, "offset", "stringOffset")]);
         let n = self.u16(2).unwrap_or(0);
+        // format 0: the records run up to the string storage; the storage starts where the records end
+        if self.u16(0) == Some(0) {
+            if let Some(so) = self.u16(4).filter(|x| *x >= 6) {
+                self.der(2, (so - 6) / 12);
+            }
+            self.der(4, 6 + 12 * n);
+        }
         for (k, kn) in [(0usize, "0"), (1, "1"), (n / 2, "mid"), (n.saturating_sub(1), "last")] {
             if k < n {
                 self.fs(6 + 12 * k, &[(2, "value", &format!("rec[{}].platformID", kn)), (2, "value", &format!("rec[{}].encodingID", kn)), (2, "value", &format!("rec[{}].languageID", kn)), (2, "index", &format!("rec[{}].nameID", kn)), (2, "length", &format!("rec[{}].length", kn)), (2, "offset", &format!("rec[{}].offset", kn))]);
@@ -919,6 +1000,11 @@ impl<'a> Walk<'a> {
             if cov >> 8 == 0 {
                 self.fs(p + 6, &[(2, "count", "f0.nPairs"), (2, "value", "f0.searchRange"), (2, "value", "f0.entrySelector"), (2, "value", "f0.rangeShift"), (2, "index", "f0.pair0.left"), (2, "index", "f0.pair0.right"), (2, "value", "f0.pair0.value")]);
                 let np = self.u16(p + 6).unwrap_or(0);
+                // sub-table length and nPairs imply each other
+                self.der(p + 2, 14 + 6 * np);
+                if let Some(l) = self.u16(p + 2).filter(|l| *l >= 14) {
+                    self.der(p + 6, (l - 14) / 6);
+                }
                 if np > 1 {
                     self.fs(p + 20, &[(2, "index", "f0.pair1.left"), (2, "index", "f0.pair1.right"), (2, "value", "f0.pair1.value")]);
                 }
@@ -949,6 +1035,14 @@ impl<'a> Walk<'a> {
     }
     fn fvar(&mut self) {
         self.fs(0, &[(2, "version", "majorVersion"), (2, "version", "minorVersion"), (2, "offset", "axesArrayOffset"), (2, "value", "reserved"), (2, "count", "axisCount"), (2, "length", "axisSize"), (2, "count", "instanceCount"), (2, "length", "instanceSize")]);
+        // the record sizes the format prescribes: an axis record has 20 bytes, an instance 4 + 4 per axis (+ 2)
+        self.der(10, 20);
+        if let (Some(ac), Some(isz)) = (self.u16(8), self.u16(14)) {
+            self.der(14, 4 + 4 * ac + if isz == 6 + 4 * ac { 2 } else { 0 });
+            if isz >= 8 {
+                self.der(8, (isz - 4) / 4);
+            }
+        }
         let (o, n, sz) = (self.u16(4).unwrap_or(16), self.u16(8).unwrap_or(0), self.u16(10).unwrap_or(20));
         for k in 0..n.min(8) {
             self.fs(o + sz * k, &[(4, "index", &format!("axis[{}].tag", k)), (4, "value", &format!("axis[{}].minValue", k)), (4, "value", &format!("axis[{}].defaultValue", k)), (4, "value", &format!("axis[{}].maxValue", k)), (2, "value", &format!("axis[{}].flags", k)), (2, "index", &format!("axis[{}].nameID", k))]);
@@ -1247,6 +1341,11 @@ impl<'a> Walk<'a> {
     fn mvar(&mut self) {
         self.fs(0, &[(2, "version", "majorVersion"), (2, "version", "minorVersion"), (2, "value", "reserved"), (2, "length", "valueRecordSize"), (2, "count", "valueRecordCount"), (2, "offset", "itemVariationStoreOffset")]);
         let (sz, n) = (self.u16(6).unwrap_or(8), self.u16(8).unwrap_or(0));
+        self.der(6, 8);
+        // the records run up to the ItemVariationStore in the files font tools write
+        if let Some(o) = self.u16(10).filter(|o| *o >= 12 && sz > 0) {
+            self.der(8, (o - 12) / sz);
+        }
         for (k, kn) in [(0usize, "0"), (1, "1"), (n / 2, "mid"), (n.saturating_sub(1), "last")] {
             if k < n {
                 self.fs(12 + sz * k, &[(4, "index", &format!("rec[{}].valueTag", kn)), (2, "index", &format!("rec[{}].deltaSetOuterIndex", kn)), (2, "index", &format!("rec[{}].deltaSetInnerIndex", kn))]);
@@ -1261,6 +1360,7 @@ impl<'a> Walk<'a> {
     fn stat(&mut self) {
         self.fs(0, &[(2, "version", "majorVersion"), (2, "version", "minorVersion"), (2, "length", "designAxisSize"), (2, "count", "designAxisCount"), (4, "offset", "designAxesOffset"), (2, "count", "axisValueCount"), (4, "offset", "offsetToAxisValueOffsets"), (2, "index", "elidedFallbackNameID")]);
         let (asz, an) = (self.u16(4).unwrap_or(8), self.u16(6).unwrap_or(0));
+        self.der(4, 8);
         if let Some(o) = self.u32(8) {
             for k in 0..an.min(8) {
                 self.fs(o + asz * k, &[(4, "index", &format!("axis[{}].tag", k)), (2, "index", &format!("axis[{}].nameID", k)), (2, "value", &format!("axis[{}].ordering", k))]);
@@ -2222,15 +2322,161 @@ impl<'a> Walk<'a> {
             }
             // document records sorted by start glyph id
             self.sibs_rec(o + 2, 12, n, &[(0, 2), (2, 2), (4, 4), (8, 4)]);
+            // svgDocLength: up to the next document (or the end of the table); numEntries: up to the first document
+            let offs: Vec<usize> = (0..n.min(4096)).filter_map(|k| self.u32(o + 2 + 12 * k + 4)).collect();
+            for k in [0usize, 1, n.saturating_sub(1)] {
+                if let Some(d) = offs.get(k) {
+                    let end = offs.iter().copied().filter(|x| x > d).min().unwrap_or(self.tlen.saturating_sub(o));
+                    self.der(o + 2 + 12 * k + 8, end - d);
+                }
+            }
+            if let Some(first) = offs.iter().copied().min().filter(|x| *x >= 2) {
+                self.der(o, (first - 2) / 12);
+            }
             if let Some(d0) = self.u32(o + 6) {
                 self.fs(o + d0, &[(1, "version", "doc0.byte0"), (1, "version", "doc0.byte1"), (1, "version", "doc0.byte2")]);
             }
         }
     }
-    fn cblc(&mut self) {
+    /// absolute readers (for a table other than the one being walked)
+    fn a8(&self, p: usize) -> Option<usize> {
+        self.d.get(p).map(|b| *b as usize)
+    }
+    fn a16(&self, p: usize) -> Option<usize> {
+        self.d.get(p..p.checked_add(2)?).map(|b| ((b[0] as usize) << 8) | b[1] as usize)
+    }
+    fn a32(&self, p: usize) -> Option<usize> {
+        self.d.get(p..p.checked_add(4)?).map(|b| u32::from_be_bytes([b[0], b[1], b[2], b[3]]) as usize)
+    }
+    /// The glyph records an EBLC / CBLC table (at absolute position `loc`) names in its EBDT / CBDT table: per
+    /// strike (first 12) and index sub-table (first 8) a few glyphs of the range:
+    /// (strike, sub-table, bit depth, index format, image format, glyph id, position of the record relative to the
+    /// data table, record length as the index sub-table gives it, big metrics of the sub-table (height, width))
+    #[allow(clippy::type_complexity)]
+    fn bitmap_records(&self, loc: (usize, usize)) -> Vec<(usize, usize, usize, usize, usize, usize, usize, usize, Option<(usize, usize)>)> {
+        let (lo, ll) = loc;
+        let mut out = Vec::new();
+        let inside = |p: usize, n: usize| p + n <= ll;
+        let n = match self.a32(lo + 4) {
+            Some(n) if inside(0, 8) => n,
+            _ => return out,
+        };
+        for k in 0..n.min(12) {
+            let b = 8 + 48 * k;
+            if !inside(b, 48) {
+                break;
+            }
+            let (arr, ns, bd) = (self.a32(lo + b).unwrap_or(0), self.a32(lo + b + 8).unwrap_or(0), self.a8(lo + b + 46).unwrap_or(1));
+            for j in 0..ns.min(8) {
+                let r = arr + 8 * j;
+                if !inside(r, 8) {
+                    break;
+                }
+                let (first, last, add) = (self.a16(lo + r).unwrap_or(0), self.a16(lo + r + 2).unwrap_or(0), self.a32(lo + r + 4).unwrap_or(0));
+                let h = arr + add;
+                if !inside(h, 8) || last < first {
+                    continue;
+                }
+                let (ifmt, imf, ido) = (self.a16(lo + h).unwrap_or(0), self.a16(lo + h + 2).unwrap_or(0), self.a32(lo + h + 4).unwrap_or(0));
+                let span = last - first + 1;
+                let picks: Vec<usize> = {
+                    let mut v = vec![0usize, 1, span / 2, span - 1];
+                    v.retain(|x| *x < span);
+                    v.dedup();
+                    v
+                };
+                match ifmt {
+                    1 | 3 => {
+                        let w = if ifmt == 1 { 4 } else { 2 };
+                        for g in picks {
+                            let at = h + 8 + w * g;
+                            if !inside(at, 2 * w) {
+                                continue;
+                            }
+                            let (a, e) = if ifmt == 1 { (self.a32(lo + at).unwrap_or(0), self.a32(lo + at + 4).unwrap_or(0)) } else { (self.a16(lo + at).unwrap_or(0), self.a16(lo + at + 2).unwrap_or(0)) };
+                            if e > a {
+                                out.push((k, j, bd, ifmt, imf, first + g, ido + a, e - a, None));
+                            }
+                        }
+                    }
+                    2 | 5 if inside(h + 8, 12) => {
+                        let size = self.a32(lo + h + 8).unwrap_or(0);
+                        let bm = Some((self.a8(lo + h + 12).unwrap_or(0), self.a8(lo + h + 13).unwrap_or(0)));
+                        if ifmt == 2 {
+                            for g in picks {
+                                out.push((k, j, bd, ifmt, imf, first + g, ido + g * size, size, bm));
+                            }
+                        } else if inside(h + 20, 4) {
+                            let ng = self.a32(lo + h + 20).unwrap_or(0);
+                            for g in [0usize, 1, ng.saturating_sub(1)] {
+                                if g < ng && inside(h + 24 + 2 * g, 2) {
+                                    out.push((k, j, bd, ifmt, imf, self.a16(lo + h + 24 + 2 * g).unwrap_or(0), ido + g * size, size, bm));
+                                }
+                            }
+                            out.dedup();
+                        }
+                    }
+                    4 if inside(h + 8, 4) => {
+                        let ng = self.a32(lo + h + 8).unwrap_or(0);
+                        for g in [0usize, 1, ng.saturating_sub(1)] {
+                            let at = h + 12 + 4 * g;
+                            if g < ng && inside(at, 8) {
+                                let (gid, a, e) = (self.a16(lo + at).unwrap_or(0), self.a16(lo + at + 2).unwrap_or(0), self.a16(lo + at + 6).unwrap_or(0));
+                                if e > a {
+                                    out.push((k, j, bd, ifmt, imf, gid, ido + a, e - a, None));
+                                }
+                            }
+                        }
+                        out.dedup();
+                    }
+                    _ => {}
+                }
+            }
+        }
+        out
+    }
+    /// bytes of a bitmap of `h` rows of `w` pixels of `bd` bits: rows padded to bytes / bit-aligned
+    fn bitmap_bytes(h: usize, w: usize, bd: usize, bit_aligned: bool) -> usize {
+        if bit_aligned {
+            (h * w * bd + 7) / 8
+        } else {
+            h * ((w * bd + 7) / 8)
+        }
+    }
+    /// The length the content of a glyph record of the data table implies (metrics x bit depth, component count,
+    /// dataLen), read at absolute position `p`; `bm` = the sub-table's big metrics for the formats without own metrics
+    fn implied_record_len(&self, p: usize, imf: usize, bd: usize, bm: Option<(usize, usize)>) -> Option<usize> {
+        Some(match imf {
+            1 => 5 + Self::bitmap_bytes(self.a8(p)?, self.a8(p + 1)?, bd, false),
+            2 => 5 + Self::bitmap_bytes(self.a8(p)?, self.a8(p + 1)?, bd, true),
+            5 => {
+                let (h, w) = bm?;
+                Self::bitmap_bytes(h, w, bd, true)
+            }
+            6 => 8 + Self::bitmap_bytes(self.a8(p)?, self.a8(p + 1)?, bd, false),
+            7 => 8 + Self::bitmap_bytes(self.a8(p)?, self.a8(p + 1)?, bd, true),
+            8 => 8 + 4 * self.a16(p + 6)?,
+            9 => 10 + 4 * self.a16(p + 8)?,
+            17 => 9 + self.a32(p + 5)?,
+            18 => 12 + self.a32(p + 8)?,
+            19 => 4 + self.a32(p)?,
+            _ => return None,
+        })
+    }
+    /// EBLC / CBLC: every BitmapSize record (first 12), every index sub-table of it (first 8) in its index format.
+    /// `dat` = where the EBDT / CBDT table is (for the implied sizes: a size / end offset that the metrics and the
+    /// image format of the glyph record imply).
+    fn cblc(&mut self, dat: Option<(usize, usize)>) {
         self.fs(0, &[(2, "version", "majorVersion"), (2, "version", "minorVersion"), (4, "count", "numSizes")]);
         let n = self.u32(4).unwrap_or(0);
-        for k in 0..n.min(2) {
+        // numSizes: what the space up to the first index sub-table array holds
+        if let Some(a0) = (0..n.min(12)).filter_map(|k| self.u32(8 + 48 * k)).min() {
+            if a0 >= 8 {
+                self.der(4, (a0 - 8) / 48);
+            }
+        }
+        let dpos = dat.map(|d| d.0);
+        for k in 0..n.min(12) {
             let b = 8 + 48 * k;
             let nm = format!("size[{}]", k);
             self.fs(b, &[(4, "offset", &format!("{}.indexSubTableArrayOffset", nm)), (4, "length", &format!("{}.indexTablesSize", nm)), (4, "count", &format!("{}.numberOfIndexSubTables", nm)), (4, "value", &format!("{}.colorRef", nm))]);
@@ -2239,34 +2485,392 @@ impl<'a> Walk<'a> {
             self.fs(b + 16, &[(1, "value", &format!("{}.hori.ascender", nm)), (1, "value", &format!("{}.hori.descender", nm)), (1, "value", &format!("{}.hori.widthMax", nm))]);
             self.fs(b + 40, &[(2, "index", &format!("{}.startGlyphIndex", nm)), (2, "index", &format!("{}.endGlyphIndex", nm)), (1, "value", &format!("{}.ppemX", nm)), (1, "value", &format!("{}.ppemY", nm)), (1, "version", &format!("{}.bitDepth", nm)), (1, "value", &format!("{}.flags", nm))]);
             self.sibs(b + 40, 2, 2, 0, 2);
-            if let Some(a) = self.u32(b) {
-                self.fs(a, &[(2, "index", &format!("{}.sub0.firstGlyphIndex", nm)), (2, "index", &format!("{}.sub0.lastGlyphIndex", nm)), (4, "offset", &format!("{}.sub0.additionalOffset", nm))]);
-                let ns = self.u32(b + 8).unwrap_or(0);
-                if ns > 1 {
-                    self.fs(a + 8, &[(2, "index", &format!("{}.sub1.firstGlyphIndex", nm)), (2, "index", &format!("{}.sub1.lastGlyphIndex", nm)), (4, "offset", &format!("{}.sub1.additionalOffset", nm))]);
-                }
-                // index sub-table array: sorted by glyph range
-                self.sibs_rec(a, 8, ns, &[(0, 2), (2, 2), (4, 4)]);
-                if let Some(add) = self.u32(a + 4) {
-                    let h = a + add;
-                    self.fs(h, &[(2, "version", &format!("{}.sub0.indexFormat", nm)), (2, "version", &format!("{}.sub0.imageFormat", nm)), (4, "offset", &format!("{}.sub0.imageDataOffset", nm)), (4, "offset", &format!("{}.sub0.word0", nm)), (4, "offset", &format!("{}.sub0.word1", nm))]);
-                    // format 1 / 3: one offset per glyph of the range and one more, non-decreasing
-                    let span = match (self.u16(a), self.u16(a + 2)) {
-                        (Some(f), Some(l)) if l >= f => l - f + 2,
-                        _ => 0,
-                    };
-                    match self.u16(h) {
-                        Some(1) => self.sibs(h + 8, 4, span, 0, 4),
-                        Some(3) => {
-                            self.fs(h + 8, &[(2, "offset", &format!("{}.sub0.offset16[0]", nm)), (2, "offset", &format!("{}.sub0.offset16[1]", nm))]);
-                            self.sibs(h + 8, 2, span, 0, 2)
+            let bd = self.u8(b + 46).unwrap_or(1);
+            let a = match self.u32(b) {
+                Some(a) => a,
+                None => continue,
+            };
+            let ns = self.u32(b + 8).unwrap_or(0);
+            let mut end = a + 8 * ns;
+            for j in 0..ns.min(8) {
+                let r = a + 8 * j;
+                let sn = format!("{}.sub[{}]", nm, j);
+                self.fs(r, &[(2, "index", &format!("{}.firstGlyphIndex", sn)), (2, "index", &format!("{}.lastGlyphIndex", sn)), (4, "offset", &format!("{}.additionalOffset", sn))]);
+                self.sibs(r, 2, 2, 0, 2);
+                let (first, last, add) = match (self.u16(r), self.u16(r + 2), self.u32(r + 4)) {
+                    (Some(f), Some(l), Some(x)) => (f, l, x),
+                    _ => continue,
+                };
+                // counted from the array: self = the record read as its own sub-table
+                self.refs(r + 4, (8 * j) as i64, 0);
+                let h = a + add;
+                let (ifmt, imf, ido) = match (self.u16(h), self.u16(h + 2), self.u32(h + 4)) {
+                    (Some(x), Some(y), Some(z)) => (x, y, z),
+                    _ => continue,
+                };
+                let fnm = format!("{}.f{}", sn, ifmt);
+                self.fs(h, &[(2, "version", &format!("{}.indexFormat", fnm)), (2, "version", &format!("{}.imageFormat", fnm)), (4, "offset", &format!("{}.imageDataOffset", fnm))]);
+                let span = if last >= first { last - first + 1 } else { 0 };
+                let implied = |w: &Self, rel: usize, bm: Option<(usize, usize)>| dpos.and_then(|d| w.implied_record_len(d + ido + rel, imf, bd, bm));
+                match ifmt {
+                    1 | 3 => {
+                        let w = if ifmt == 1 { 4usize } else { 2 };
+                        let cnt = span + 1;
+                        for (g, gn) in [(0usize, "0"), (1, "1"), (2, "2"), (cnt / 2, "mid"), (cnt.saturating_sub(1), "last")] {
+                            if g < cnt {
+                                self.f(h + 8 + w * g, w as u8, "offset", &format!("{}.offset[{}]", fnm, gn));
+                                // the offset that ends glyph g - 1: implied by where that glyph starts and what its record holds
+                                if g >= 1 {
+                                    if let Some(st) = self.un(h + 8 + w * (g - 1), w) {
+                                        if let Some(l) = implied(self, st, None) {
+                                            self.der(h + 8 + w * g, st + l);
+                                        }
+                                    }
+                                }
+                            }
                         }
-                        _ => {}
+                        self.sibs(h + 8, w, cnt, 0, w as u8);
+                        end = end.max(h + 8 + w * cnt);
                     }
+                    2 | 5 => {
+                        self.fs(h + 8, &[(4, "length", &format!("{}.imageSize", fnm)), (1, "count", &format!("{}.bigMetrics.height", fnm)), (1, "count", &format!("{}.bigMetrics.width", fnm)), (1, "value", &format!("{}.bigMetrics.horiBearingX", fnm)), (1, "value", &format!("{}.bigMetrics.horiBearingY", fnm)), (1, "value", &format!("{}.bigMetrics.horiAdvance", fnm)), (1, "value", &format!("{}.bigMetrics.vertBearingX", fnm)), (1, "value", &format!("{}.bigMetrics.vertBearingY", fnm)), (1, "value", &format!("{}.bigMetrics.vertAdvance", fnm))]);
+                        let bm = match (self.u8(h + 12), self.u8(h + 13)) {
+                            (Some(hh), Some(ww)) => Some((hh, ww)),
+                            _ => None,
+                        };
+                        // imageSize: what the metrics beside it (format 5) or the first glyph record (own metrics / dataLen) imply
+                        if let Some(l) = implied(self, 0, bm) {
+                            self.der(h + 8, l);
+                        }
+                        end = end.max(h + 20);
+                        if ifmt == 5 {
+                            self.f(h + 20, 4, "count", &format!("{}.numGlyphs", fnm));
+                            let ng = self.u32(h + 20).unwrap_or(0);
+                            for (g, gn) in [(0usize, "0"), (1, "1"), (ng / 2, "mid"), (ng.saturating_sub(1), "last")] {
+                                if g < ng {
+                                    self.f(h + 24 + 2 * g, 2, "index", &format!("{}.glyphId[{}]", fnm, gn));
+                                }
+                            }
+                            self.sibs(h + 24, 2, ng, 0, 2);
+                            end = end.max(h + 24 + 2 * ng);
+                        }
+                    }
+                    4 => {
+                        self.f(h + 8, 4, "count", &format!("{}.numGlyphs", fnm));
+                        let ng = self.u32(h + 8).unwrap_or(0);
+                        for (g, gn) in [(0usize, "0"), (1, "1"), (2, "2"), (ng, "last")] {
+                            if g <= ng {
+                                self.fs(h + 12 + 4 * g, &[(2, "index", &format!("{}.pair[{}].glyphID", fnm, gn)), (2, "offset", &format!("{}.pair[{}].offset", fnm, gn))]);
+                                if g >= 1 {
+                                    if let Some(st) = self.u16(h + 12 + 4 * (g - 1) + 2) {
+                                        if let Some(l) = implied(self, st, None) {
+                                            self.der(h + 12 + 4 * g + 2, st + l);
+                                        }
+                                    }
+                                }
+                            }
+                        }
+                        self.sibs_rec(h + 12, 4, ng + 1, &[(0, 2), (2, 2)]);
+                        end = end.max(h + 12 + 4 * (ng + 1));
+                    }
+                    _ => {}
                 }
+            }
+            // index sub-table array: sorted by glyph range
+            self.sibs_rec(a, 8, ns, &[(0, 2), (2, 2), (4, 4)]);
+            // indexTablesSize: the bytes the array and its sub-tables take
+            if end > a {
+                self.der(b + 4, end - a);
+            }
+        }
+        // the BitmapSize records: same member of consecutive records
+        self.sibs_rec(8, 48, n, &[(0, 4), (4, 4), (8, 4), (40, 2), (42, 2), (44, 1), (45, 1), (46, 1)]);
+    }
+    /// EBDT / CBDT: the glyph records the location table names (see `bitmap_records`), each in its image format
+    fn cbdt(&mut self, loc: (usize, usize)) {
+        let mut seen = std::collections::BTreeSet::new();
+        for (k, j, bd, _ifmt, imf, gid, pos, len, bm) in self.bitmap_records(loc) {
+            if !seen.insert(pos) || pos + len > self.tlen {
+                continue;
+            }
+            let nm = format!("strike[{}].sub[{}].img{}.g[{}]", k, j, imf, gid);
+            let small = |w: &mut Self, p: usize| {
+                w.fs(p, &[(1, "count", &format!("{}.height", nm)), (1, "count", &format!("{}.width", nm)), (1, "value", &format!("{}.bearingX", nm)), (1, "value", &format!("{}.bearingY", nm)), (1, "value", &format!("{}.advance", nm))]);
+            };
+            let big = |w: &mut Self, p: usize| {
+                w.fs(p, &[(1, "count", &format!("{}.height", nm)), (1, "count", &format!("{}.width", nm)), (1, "value", &format!("{}.horiBearingX", nm)), (1, "value", &format!("{}.horiBearingY", nm)), (1, "value", &format!("{}.horiAdvance", nm)), (1, "value", &format!("{}.vertBearingX", nm)), (1, "value", &format!("{}.vertBearingY", nm)), (1, "value", &format!("{}.vertAdvance", nm))]);
+            };
+            // height: the rows the record has room for, given its width and the bit depth of the strike
+            let rows = |w: &mut Self, p: usize, hdr: usize, bit_aligned: bool| {
+                if let Some(wd) = w.u8(p + 1).filter(|x| *x > 0) {
+                    let data = len.saturating_sub(hdr);
+                    let h = if bit_aligned { data * 8 / (wd * bd.max(1)) } else { data / ((wd * bd.max(1) + 7) / 8).max(1) };
+                    w.der(p, h);
+                }
+            };
+            let comps = |w: &mut Self, p: usize, room: usize| {
+                w.f(p, 2, "count", &format!("{}.numComponents", nm));
+                w.der(p, room / 4);
+                let nc = w.u16(p).unwrap_or(0);
+                for c in 0..nc.min(3) {
+                    w.fs(p + 2 + 4 * c, &[(2, "index", &format!("{}.comp[{}].glyphID", nm, c)), (1, "value", &format!("{}.comp[{}].xOffset", nm, c)), (1, "value", &format!("{}.comp[{}].yOffset", nm, c))]);
+                    // self = the glyph the record belongs to
+                    w.refs(p + 2 + 4 * c, gid as i64, -1);
+                }
+                w.sibs_rec(p + 2, 4, nc, &[(0, 2), (2, 1), (3, 1)]);
+            };
+            let data_len = |w: &mut Self, p: usize, hdr: usize| {
+                w.f(p, 4, "length", &format!("{}.dataLen", nm));
+                w.der(p, len.saturating_sub(hdr));
+                w.fs(p + 4, &[(1, "value", &format!("{}.data[0]", nm)), (1, "value", &format!("{}.data[1]", nm))]);
+            };
+            match imf {
+                1 | 2 => {
+                    small(self, pos);
+                    rows(self, pos, 5, imf == 2);
+                    self.f(pos + 5, 1, "value", &format!("{}.data[0]", nm));
+                }
+                5 => {
+                    self.f(pos, 1, "value", &format!("{}.data[0]", nm));
+                    let _ = bm;
+                }
+                6 | 7 => {
+                    big(self, pos);
+                    rows(self, pos, 8, imf == 7);
+                    self.f(pos + 8, 1, "value", &format!("{}.data[0]", nm));
+                }
+                8 => {
+                    small(self, pos);
+                    self.f(pos + 5, 1, "value", &format!("{}.pad", nm));
+                    comps(self, pos + 6, len.saturating_sub(8));
+                }
+                9 => {
+                    big(self, pos);
+                    comps(self, pos + 8, len.saturating_sub(10));
+                }
+                17 => {
+                    small(self, pos);
+                    data_len(self, pos + 5, 9);
+                }
+                18 => {
+                    big(self, pos);
+                    data_len(self, pos + 8, 12);
+                }
+                19 => data_len(self, pos, 4),
+                _ => {}
             }
         }
     }
+    // ---- morx ---------------------------------------------------------------------------------------------
+
+    /// AAT lookup table at `p` (relative to the table): formats 0, 2, 4, 6, 8, 10
+    fn aat_lookup(&mut self, p: usize, nm: &str, ng: usize) {
+        let fmt = match self.u16(p) {
+            Some(f) => f,
+            None => return,
+        };
+        let nm = format!("{}.lk{}", nm, fmt);
+        self.f(p, 2, "version", &format!("{}.format", nm));
+        match fmt {
+            0 => {
+                for (g, gn) in [(0usize, "0"), (1, "1"), (ng / 2, "mid"), (ng.saturating_sub(1), "last")] {
+                    if g < ng {
+                        self.f(p + 2 + 2 * g, 2, "value", &format!("{}.value[{}]", nm, gn));
+                    }
+                }
+                self.sibs(p + 2, 2, ng, 0, 2);
+            }
+            2 | 4 | 6 => {
+                self.fs(p + 2, &[(2, "length", &format!("{}.unitSize", nm)), (2, "count", &format!("{}.nUnits", nm)), (2, "value", &format!("{}.searchRange", nm)), (2, "value", &format!("{}.entrySelector", nm)), (2, "value", &format!("{}.rangeShift", nm))]);
+                let us = if fmt == 6 { 4 } else { 6 };
+                self.der(p + 2, us);
+                let n = self.u16(p + 4).unwrap_or(0);
+                for (k, kn) in [(0usize, "0"), (1, "1"), (n / 2, "mid"), (n.saturating_sub(1), "last")] {
+                    if k >= n {
+                        continue;
+                    }
+                    let u = p + 12 + us * k;
+                    match fmt {
+                        2 => {
+                            self.fs(u, &[(2, "index", &format!("{}.seg[{}].lastGlyph", nm, kn)), (2, "index", &format!("{}.seg[{}].firstGlyph", nm, kn)), (2, "value", &format!("{}.seg[{}].value", nm, kn))]);
+                            self.sibs(u, 2, 2, 0, 2);
+                        }
+                        4 => {
+                            self.fs(u, &[(2, "index", &format!("{}.seg[{}].lastGlyph", nm, kn)), (2, "index", &format!("{}.seg[{}].firstGlyph", nm, kn)), (2, "offset", &format!("{}.seg[{}].offset", nm, kn))]);
+                            self.sibs(u, 2, 2, 0, 2);
+                            if let Some(o) = self.u16(u + 4) {
+                                self.f(p + o, 2, "value", &format!("{}.seg[{}].value[0]", nm, kn));
+                            }
+                        }
+                        _ => {
+                            self.fs(u, &[(2, "index", &format!("{}.single[{}].glyph", nm, kn)), (2, "value", &format!("{}.single[{}].value", nm, kn))]);
+                        }
+                    }
+                }
+                if fmt == 6 {
+                    self.sibs_rec(p + 12, 4, n, &[(0, 2), (2, 2)]);
+                } else {
+                    self.sibs_rec(p + 12, 6, n, &[(0, 2), (2, 2), (4, 2)]);
+                }
+            }
+            8 => {
+                self.fs(p + 2, &[(2, "index", &format!("{}.firstGlyph", nm)), (2, "count", &format!("{}.glyphCount", nm))]);
+                let n = self.u16(p + 4).unwrap_or(0);
+                for (k, kn) in [(0usize, "0"), (1, "1"), (n.saturating_sub(1), "last")] {
+                    if k < n {
+                        self.f(p + 6 + 2 * k, 2, "value", &format!("{}.value[{}]", nm, kn));
+                    }
+                }
+                self.sibs(p + 6, 2, n, 0, 2);
+            }
+            10 => {
+                self.fs(p + 2, &[(2, "length", &format!("{}.unitSize", nm)), (2, "index", &format!("{}.firstGlyph", nm)), (2, "count", &format!("{}.glyphCount", nm))]);
+                let (us, n) = (self.u16(p + 2).unwrap_or(0), self.u16(p + 6).unwrap_or(0));
+                if (1..=4).contains(&us) {
+                    for (k, kn) in [(0usize, "0"), (1, "1"), (n.saturating_sub(1), "last")] {
+                        if k < n {
+                            self.f(p + 8 + us * k, us as u8, "value", &format!("{}.value[{}]", nm, kn));
+                        }
+                    }
+                    self.sibs(p + 8, us, n, 0, us as u8);
+                } else if us == 8 && n > 0 {
+                    self.f(p + 8, 8, "value", &format!("{}.value[0]", nm));
+                }
+            }
+            _ => {}
+        }
+    }
+    /// morx: every chain (first 3), its feature entries, every sub-table (first 12) by type: extended state table
+    /// header, class lookup table, first rows of the state array, first entries, per-type tables
+    fn morx(&mut self, ng: usize) {
+        self.fs(0, &[(2, "version", "version"), (2, "value", "unused"), (4, "count", "nChains")]);
+        let nch = self.u32(4).unwrap_or(0);
+        let mut p = 8usize;
+        for c in 0..nch.min(3) {
+            let cn = format!("chain[{}]", c);
+            self.fs(p, &[(4, "value", &format!("{}.defaultFlags", cn)), (4, "length", &format!("{}.chainLength", cn)), (4, "count", &format!("{}.nFeatureEntries", cn)), (4, "count", &format!("{}.nSubtables", cn))]);
+            let (clen, nf, nsub) = match (self.u32(p + 4), self.u32(p + 8), self.u32(p + 12)) {
+                (Some(a), Some(b), Some(x)) => (a, b, x),
+                _ => return,
+            };
+            for (k, kn) in [(0usize, "0"), (1, "1"), (nf.saturating_sub(1), "last")] {
+                if k < nf {
+                    self.fs(p + 16 + 12 * k, &[(2, "value", &format!("{}.feature[{}].featureType", cn, kn)), (2, "value", &format!("{}.feature[{}].featureSetting", cn, kn)), (4, "value", &format!("{}.feature[{}].enableFlags", cn, kn)), (4, "value", &format!("{}.feature[{}].disableFlags", cn, kn))]);
+                }
+            }
+            self.sibs_rec(p + 16, 12, nf, &[(0, 2), (2, 2), (4, 4), (8, 4)]);
+            let mut sp = p + 16 + 12 * nf;
+            let mut implied_len = 16 + 12 * nf;
+            for k in 0..nsub.min(12) {
+                let (len, cov) = match (self.u32(sp), self.u32(sp + 4)) {
+                    (Some(l), Some(c)) => (l, c),
+                    _ => break,
+                };
+                let ty = cov & 0xff;
+                let sn = format!("{}.sub[{}].t{}", cn, k, ty);
+                self.fs(sp, &[(4, "length", &format!("{}.length", sn)), (4, "version", &format!("{}.coverage", sn)), (4, "value", &format!("{}.subFeatureFlags", sn))]);
+                // the last sub-table ends where the chain ends
+                if k + 1 == nsub && p + clen > sp {
+                    self.der(sp, p + clen - sp);
+                }
+                let b = sp + 12;
+                let blen = len.saturating_sub(12);
+                if ty == 4 {
+                    self.aat_lookup(b, &sn, ng);
+                } else if ty <= 5 {
+                    self.fs(b, &[(4, "count", &format!("{}.nClasses", sn)), (4, "offset", &format!("{}.classTableOffset", sn)), (4, "offset", &format!("{}.stateArrayOffset", sn)), (4, "offset", &format!("{}.entryTableOffset", sn))]);
+                    let extra: &[&str] = match ty {
+                        1 => &["substitutionTableOffset"],
+                        2 => &["ligActionOffset", "componentOffset", "ligatureOffset"],
+                        5 => &["insertionActionOffset"],
+                        _ => &[],
+                    };
+                    for (x, xn) in extra.iter().enumerate() {
+                        self.f(b + 16 + 4 * x, 4, "offset", &format!("{}.{}", sn, xn));
+                    }
+                    // the offsets of the header: increasing in the files font tools write
+                    self.sibs(b + 4, 4, 3 + extra.len(), 0, 4);
+                    let (nc, cto, sao, eto) = (self.u32(b).unwrap_or(0), self.u32(b + 4).unwrap_or(0), self.u32(b + 8).unwrap_or(0), self.u32(b + 12).unwrap_or(0));
+                    if ty == 1 || ty == 2 {
+                        self.aat_lookup(b + cto, &format!("{}.class", sn), ng);
+                        // nClasses: what the state array holds per row when it runs up to the entry table in whole rows
+                        if eto > sao && nc > 0 && (eto - sao) % (2 * nc) == 0 {
+                            // (no implied value: the number of rows is not stored)
+                        }
+                        for r in 0..2usize {
+                            for (cl, cln) in [(0usize, "0"), (1, "1"), (nc.saturating_sub(1), "last")] {
+                                if cl < nc {
+                                    self.f(b + sao + 2 * (r * nc + cl), 2, "index", &format!("{}.state[{}].class[{}]", sn, r, cln));
+                                }
+                            }
+                        }
+                        if eto > sao {
+                            self.sibs(b + sao, 2, (eto - sao) / 2, 0, 2);
+                        }
+                        let es = if ty == 1 { 8 } else { 6 };
+                        for e in 0..3usize {
+                            let ep = b + eto + es * e;
+                            if ep + es > b + blen {
+                                break;
+                            }
+                            if ty == 1 {
+                                self.fs(ep, &[(2, "index", &format!("{}.entry[{}].newState", sn, e)), (2, "value", &format!("{}.entry[{}].flags", sn, e)), (2, "index", &format!("{}.entry[{}].markIndex", sn, e)), (2, "index", &format!("{}.entry[{}].currentIndex", sn, e))]);
+                            } else {
+                                self.fs(ep, &[(2, "index", &format!("{}.entry[{}].newState", sn, e)), (2, "value", &format!("{}.entry[{}].flags", sn, e)), (2, "index", &format!("{}.entry[{}].ligActionIndex", sn, e))]);
+                            }
+                        }
+                        self.sibs_rec(b + eto, es, 3, &[(0, 2), (2, 2), (4, 2)]);
+                    }
+                    if ty == 1 {
+                        if let Some(sto) = self.u32(b + 16) {
+                            let n = self.u32(b + sto).map_or(0, |f| f / 4).min(4);
+                            for x in 0..n {
+                                self.f(b + sto + 4 * x, 4, "offset", &format!("{}.subst[{}].offset", sn, x));
+                            }
+                            self.sibs(b + sto, 4, n, 0, 4);
+                            for x in 0..n {
+                                if let Some(o) = self.u32(b + sto + 4 * x) {
+                                    self.aat_lookup(b + sto + o, &format!("{}.subst[{}]", sn, x), ng);
+                                }
+                            }
+                        }
+                    }
+                    if ty == 2 {
+                        if let (Some(la), Some(co), Some(li)) = (self.u32(b + 16), self.u32(b + 20), self.u32(b + 24)) {
+                            for x in 0..3usize {
+                                if b + la + 4 * x + 4 <= b + blen {
+                                    self.f(b + la + 4 * x, 4, "value", &format!("{}.ligAction[{}]", sn, x));
+                                }
+                                if b + co + 2 * x + 2 <= b + blen {
+                                    self.f(b + co + 2 * x, 2, "index", &format!("{}.component[{}]", sn, x));
+                                }
+                                if b + li + 2 * x + 2 <= b + blen {
+                                    self.f(b + li + 2 * x, 2, "index", &format!("{}.ligature[{}]", sn, x));
+                                }
+                            }
+                            self.sibs(b + la, 4, 3, 0, 4);
+                            self.sibs(b + co, 2, 3, 0, 2);
+                            self.sibs(b + li, 2, 3, 0, 2);
+                        }
+                    }
+                }
+                implied_len += len;
+                if len == 0 {
+                    break;
+                }
+                sp += len;
+            }
+            // chainLength: header + feature entries + the sub-tables as their own lengths say
+            if nsub <= 12 {
+                self.der(p + 4, implied_len);
+            }
+            if clen == 0 {
+                break;
+            }
+            p += clen;
+        }
+    }
+
     fn sbix(&mut self, ng: usize) {
         self.fs(0, &[(2, "version", "version"), (2, "value", "flags"), (4, "count", "numStrikes")]);
         let n = self.u32(4).unwrap_or(0);
